@@ -68,6 +68,13 @@ var jsonPlacement = map[string][2]string{
 	"root":              {``, ``},
 }
 
+// placements in the compressed packages (vf-oc)
+var jsonPlacementOC = map[string][2]string{
+	"oc-list":          {`{"vf-oc:vo":{"o1":{"ls":{"l":`, `}}}}`},
+	"oc-ordered-list":  {`{"vf-oc:vo":{"o1":{"ols":{"ol":`, `}}}}`},
+	"oc-multikey-list": {`{"vf-oc:vo":{"o1":{"ms":{"m":`, `}}}}`},
+}
+
 var jsonValues = map[string]string{
 	"null": `null`, "true": `true`, "number": `7`, "negative": `-7`, "fraction": `1.5`, "huge": `1e400`, "string": `"abc"`, "empty-string": `""`,
 	"object": `{}`, "object-unknown-member": `{"zzz":1}`, "object-null-member": `{"a":null,"k":null}`, "object-nested-unknown": `{"c":{"zzz":{"y":[1]}},"sub":{"w":{"q":1}}}`,
@@ -75,6 +82,10 @@ var jsonValues = map[string]string{
 	"array-object-no-key": `[{"v":"x"}]`, "array-object-bad-key": `[{"k":{"x":1},"k1":[1],"k2":"zz"}]`, "array-object-dup-key": `[{"k":"a","k1":"a","k2":1},{"k":"a","k1":"a","k2":1}]`,
 	"array-array": `[[1]]`, "array-mixed": `[1,"a",null,{}]`, "array-null-object": `[null,{"k":"a"}]`,
 	"deep-nesting": strings.Repeat("[", 300) + strings.Repeat("]", 300),
+	"array-object-key-twice-array":  `[{"k":["a"],"k1":["a"],"k2":[1],"config":{"k":["a"],"k1":["a"],"k2":[1]}}]`,
+	"array-object-key-twice-object": `[{"k":{"x":1},"k1":{"x":1},"k2":{"x":1},"config":{"k":{"x":1},"k1":{"x":1},"k2":{"x":1}}}]`,
+	"array-object-key-twice-differ": `[{"k":"a","k1":"a","k2":1,"config":{"k":"b","k1":"b","k2":2}}]`,
+	"array-object-key-twice-null":   `[{"k":null,"k1":null,"k2":null,"config":{"k":"a","k1":"a","k2":1}}]`,
 }
 
 func init() {
@@ -337,7 +348,12 @@ func malformedCmd(args []string) *rep.Result {
 		switch kind {
 		case "MJSON":
 			pl, ok := jsonPlacement[f["n"]]
-			if !ok || pkg.Compressed {
+			if oc, isOC := jsonPlacementOC[f["n"]]; isOC {
+				if !pkg.Compressed {
+					return
+				}
+				pl = oc
+			} else if !ok || pkg.Compressed {
 				return
 			}
 			doc := []byte(pl[0] + jsonValues[f["v"]] + pl[1])
